@@ -112,6 +112,11 @@ class Pool:
             if i % 2:
                 # a library-style main file: the chunk ends in a return statement (it is code like any other)
                 code = code + rng.choice((b'return vec\n', b'-- export\nreturn {v=1}\n', b'do return end\n', b'return'))
+            if i in (0, 3):
+                # text of a .lua file that is not Lua code: a commented-out directive line and a long string holding one (the named
+                # file exists for the first, not for the second); a .lua source is Lua, its comments and strings are kept as they are
+                code = (b'--[[ disabled for release:\n#include helper_a.lua\n]]\nusage=[[\n#include not_there.lua\n#include helper_a.lua\n]]\n' + code
+                        if i == 0 else code + b'--[==[\n#include  not_there.p8\n]==]\n')
             p = os.path.join(root, '%s-m%d.lua' % (carts.cart_basename(i * 3 + 2), i))
             with open(p, 'wb') as fh:
                 fh.write(code)
@@ -370,7 +375,15 @@ def run_build(ctx, rng, pool, root, assign, out_state, out_fmt, lua_from_file, r
             return
     # picotool's own reader must agree with the reference reader
     try:
-        g2 = p8file.from_file(out)
+        if out_fmt == 'p8' and any(l.startswith(b'#include') for l in bytes(got['lua']).split(b'\n')):
+            # code taken from a .lua file may hold lines that are directives once they stand in a .p8 file (C20): the section is
+            # compared as text, the include pass is not part of this property
+            from pico8.game.formatter.p8 import P8Formatter
+            ctx.feature('out_code_holds_directive_lines')
+            with open(out, 'rb') as fh:
+                g2 = P8Formatter.from_file(fh, filename=out, do_includes=False)
+        else:
+            g2 = p8file.from_file(out)
     except Exception as e:
         ctx.violation('picotool cannot load the cart it built: %r' % (e,), case)
         return
